@@ -17,9 +17,13 @@ CLAIMED = {
     text="Deterministic simulation of assignment histories on 1..3 live Version handles in which any operation may be refused (the injected fault is the rejected operation): construction and component assignment with valid, invalid, empty and None values are judged step by step against a hand-written validator/decomposer (no regex), and after a refusal every observable of every handle must be unchanged. Seeded sampling of histories.",
     ref="5.C14", note="Trusted: the hand-written Policy 5.6.12 validator (about 25 lines) as reference; empty-string assignment to an optional part may be rejected or treated as absent.",
     technique="deterministic simulation: seeded operation histories with rejected-operation rollback checks vs. reference decomposer"),
+ "C20": dict(level="exploration",
+    text="Deterministic simulation of all live DB handles (the original read through a simulator-owned line stream, plus every copy / reverse view / filter / choice / facet collection derived during the run) receiving inserts and derivations in a seeded order; after every step every live handle is compared, through the public query methods, with a reference relation, and the same runs are repeated under three PYTHONHASHSEED values and must produce identical event logs. Two documented open findings (insert stores the characters of the name; sharing derivations alias sets) are recognised only by their exact signature; anything else is a violation. Seeded sampling of collections and histories.",
+    ref="5.C20", note="Trusted: the 60-line reference database (two dicts of sets, snapshot semantics for derivations) and its object-level aliasing twin used only to recognise the sharing finding; hand-derived facet function; package names distinct and free of ', ' / ': '.",
+    technique="deterministic simulation: seeded multi-handle operation histories vs. reference relation, hash-seed sweep"),
 }
 PENDING = {k: "Claimed in DESIGN.md section 5 (simulation target); its check is not built yet in this revision - listed here only until it is." for k in
-           "C05 C07 C09 C10 C11 C15 C20".split()}
+           "C05 C07 C09 C10 C11 C15".split()}
 NA = {
  "C01": "Pure function of the line list (quantifier: inputs only): no state, seam, fault or order of operations for a simulator to own; it is an enumeration / property-based-testing target (DESIGN.md section 2).",
  "C02": "Pure function of (text, input form, armor flag); the 'configurations' are argument shapes, not schedules or faults; input objects are iterated once, sequentially (DESIGN.md section 2).",
